@@ -135,7 +135,9 @@ Restart(i) ==
      IN  /\ now' = u /\ ph' = [ph EXCEPT ![i] = u] /\ age' = [a0 EXCEPT ![i] = 0]
          /\ leaderOf' = r[1].leaderOf /\ services' = r[1].services /\ info' = r[2]
          /\ emitv' = <<[ev |-> "Joined", i |-> i]>> \o r[3]
-  /\ amLeader' = [amLeader EXCEPT ![i] = FALSE] /\ told' = [told EXCEPT ![i] = 0]
+  \* (the lease identity carries the cluster join time - models.Identity.String(): the restarted pod is a NEW holder identity, so the
+  \* others' OnNewLeader fires again when it acquires the lease; callbacks run for the old incarnation do not count for the new one)
+  /\ amLeader' = [amLeader EXCEPT ![i] = FALSE] /\ told' = [j \in Inst |-> IF j = i \/ told[j] = i THEN 0 ELSE told[j]]
   /\ Changed
   /\ UNCHANGED lease
 
